@@ -136,6 +136,7 @@ func subOverflows(a, b Integer) bool {
 //@ ensures [C11.budget.ok] result == nil ==> (intp.MaxOps > 0 ==> intp.NumOps <= intp.MaxOps || intp.NumOps == old(intp.NumOps) || len(intp.procStart) > 0)
 
 //@ sweep C01 builtin.go interpreter.go scanner.go eexec.go cmap.go error.go -stackString -objectString -objectString2 -Error
+//@ maporder C17 cmap.go
 
 // ---------------------------------------------------------------------
 // interpreter.go
